@@ -1,7 +1,8 @@
 import Rpft.Drv.Json
 import Rpft.Sheets
-namespace Rpft.Drv.Sh
-open Lean Rpft Rpft.Sheets Rpft.Drv
+namespace Rpft.Drv.SheetsD
+open Rpft.Drv
+open Lean Rpft Rpft.Sheets
 
 def errJ (e : SErr) : Json :=
   Json.mkObj [("err", Json.str (match e with
@@ -108,8 +109,4 @@ def handleSheets (op : String) (j : Json) : Except String Json := do
         ("csv", exceptSheetJ (readCsv s.name (toCsvRecords s)))])
   | _ => throw s!"unknown op {op}"
 
-end Rpft.Drv.Sh
-
-namespace Rpft.Drv
-def handleSheets := Sh.handleSheets
-end Rpft.Drv
+end Rpft.Drv.SheetsD
